@@ -436,7 +436,10 @@ pub fn run(ctx: &crate::RunCtx) -> (Summary, Vec<Violation>) {
                     sum.distinct_nontrivial += 1;
                 }
                 *sum.ops_hist.entry(format!("A_{}", op_name(op))).or_default() += 1;
-                if let Some(v) = run_case(&case, &mut seam_ops) {
+                let ops0 = seam_ops;
+                let verdict = run_case(&case, &mut seam_ops);
+                sum.note(n_case, (seam_ops - ops0) ^ verdict.as_ref().map_or(0, |v| crate::rng::fnv(&v.class)));
+                if let Some(v) = verdict {
                     *sum.classes.entry(v.class.clone()).or_default() += 1;
                     viols.push(v);
                 }
@@ -469,7 +472,10 @@ pub fn run(ctx: &crate::RunCtx) -> (Summary, Vec<Violation>) {
         for op in &case.ops {
             *sum.ops_hist.entry(format!("B_{}", op_name(op))).or_default() += 1;
         }
-        if let Some(v) = run_case(&case, &mut seam_ops) {
+        let ops0 = seam_ops;
+                let verdict = run_case(&case, &mut seam_ops);
+                sum.note(n_case, (seam_ops - ops0) ^ verdict.as_ref().map_or(0, |v| crate::rng::fnv(&v.class)));
+                if let Some(v) = verdict {
             *sum.classes.entry(v.class.clone()).or_default() += 1;
             viols.push(v);
         }
@@ -500,11 +506,20 @@ pub fn run(ctx: &crate::RunCtx) -> (Summary, Vec<Violation>) {
                 sum.cases += 1;
                 sum.distinct_nontrivial += 1;
                 *sum.ops_hist.entry(format!("C_{sink}")).or_default() += 1;
-                if let Some(v) = run_comp_case(&comp, &case, &mut seam_ops) {
+                let ops0 = seam_ops;
+                let verdict = run_comp_case(&comp, &case, &mut seam_ops);
+                sum.note(n_case, (seam_ops - ops0) ^ verdict.as_ref().map_or(0, |v| crate::rng::fnv(&v.class)));
+                if let Some(v) = verdict {
                     *sum.classes.entry(v.class.clone()).or_default() += 1;
                     viols.push(v);
                 }
             }
+        }
+    }
+    if ctx.child == 0 {
+        let n = corpus::INCONSISTENT.load(std::sync::atomic::Ordering::Relaxed);
+        if n > 0 {
+            sum.probes.insert("corpus_copy_serialises_differently".into(), n);
         }
     }
     sum.seam_ops = seam_ops;
